@@ -593,34 +593,32 @@ class Runner:
             elif k == "aborted":
                 inl = _inline(op["inner"], pool)
                 excs = {"MemoryError": MemoryError, "RecursionError": RecursionError, "KeyboardInterrupt": KeyboardInterrupt}
-                tf = None
-                if "dirty_pick" in op:
-                    import nbdime.merging.generic as mg
+                # one counting pass of the same call: where global state is transiently modified, which nbdime
+                # function every line event belongs to, and which instants are clean-up statements (never aborted)
+                import nbdime.merging.generic as mg
 
-                    def fingerprint():
-                        return (bool(mg._merge_strings.recursion), len(nbn.notebook_predicates), len(nbn.notebook_differs), os.getcwd())
-                    dp = DirtyProfile(core.REPO, fingerprint)
-                    with dp:
-                        perform(inl)
+                def fingerprint():
+                    return (bool(mg._merge_strings.recursion), len(nbn.notebook_predicates), len(nbn.notebook_differs), os.getcwd())
+                dp = DirtyProfile(core.REPO, fingerprint)
+                with dp:
+                    perform(inl)
+                at = None
+                if "dirty_pick" in op:
                     inst = dp.transient_instants()
                     if inst:
-                        tf = TraceFault(core.REPO, inst[min(len(inst) - 1, int(op["dirty_pick"] * len(inst)))], excs[op["exc"]])
+                        at = inst[min(len(inst) - 1, int(op["dirty_pick"] * len(inst)))]
                         self.stat("probe_abort_placed_in_dirty_window")
-                if tf is not None:
-                    pass
-                elif "func_pick" in op:
-                    prof = FuncProfile(core.REPO)
-                    with prof:
-                        perform(inl)
-                    names = sorted(prof.per_func)
+                if at is None and "func_pick" in op:
+                    names = sorted(set(dp.funcs))
                     if names:
                         fn = names[min(len(names) - 1, int(op["func_pick"] * len(names)))]
-                        tf = FuncFault(core.REPO, fn, 1 + int(op["line_pick"] * prof.per_func[fn]), excs[op["exc"]])
+                        cnt = dp.funcs.count(fn)
+                        at = dp.kth_line_of(fn, 1 + int(op["line_pick"] * cnt))
                         self.distinct.setdefault("abort_function", set()).add(fn)
-                    else:
-                        tf = TraceFault(core.REPO, 1, excs[op["exc"]])
-                else:
-                    tf = TraceFault(core.REPO, op["at_line"], excs[op["exc"]])
+                if at is None:
+                    at = op.get("at_line") or 1
+                at = dp.avoid_restoring(at)
+                tf = TraceFault(core.REPO, at, excs[op["exc"]])
                 mine = None
                 try:
                     with tf:
